@@ -149,8 +149,35 @@ def cmd_run(args):
     print(f"{len(results)} seeded changes, {caught} reported by at least one check")
 
 
+def cmd_table():
+    ids = sorted(i for i in os.listdir(SEEDED) if os.path.isdir(os.path.join(SEEDED, i)))
+    with mp.Pool(16) as pool:
+        results = pool.map(_detect, ids)
+    lines = ["| id | breaks | change (what it needs to manifest) | reported by (rule) |", "|----|--------|---------|-------------|"]
+    for sid, prop, res, outs in results:
+        meta = json.load(open(os.path.join(SEEDED, sid, "meta.json")))
+        need = " ".join(meta.get("needs", "").split())[:230]
+        rules = []
+        for p, ls in outs.items():
+            if res.get(p) == 1:
+                for l in ls:
+                    m = re.search(r"(C\d\d\.R\d+)", l)
+                    if m and m.group(1) not in rules:
+                        rules.append(m.group(1))
+        lines.append(f"| {sid} | {prop} | {need} | {', '.join(rules) if rules else '**not reported**'} |")
+    open(os.path.join(SEEDED, "README.md"), "w").write(
+        "# Seeded changes\n\nChanges to breuleux/ovld written by independent sub-agents that were given only the text of one property and a scratch\n"
+        "worktree (nothing from /verif).  Each was confirmed here on a scratch copy before it was kept: the pinned suite still\n"
+        "gives 143 passed with the change, `demo.py` exits 1 with it and 0 without it (`meta.json` records the runs).\n"
+        "`selftest/seeded.py run` applies each `patch.diff` to a scratch copy of the current /repo/src and runs every check.\n\n" + "\n".join(lines) + "\n"
+    )
+    print("\n".join(lines))
+
+
 if __name__ == "__main__":
-    if len(sys.argv) >= 5 and sys.argv[1] == "import":
+    if len(sys.argv) >= 2 and sys.argv[1] == "table":
+        cmd_table()
+    elif len(sys.argv) >= 5 and sys.argv[1] == "import":
         cmd_import(sys.argv[2], sys.argv[3], sys.argv[4])
     elif len(sys.argv) >= 2 and sys.argv[1] == "run":
         cmd_run(sys.argv[2:])
